@@ -157,7 +157,7 @@ Qed.
 Lemma compile_sound :
   forall w P x s1 s2,
     key_respects w -> sound w (s_cache s1) -> sound w (s_cache s2) ->
-    fst (compile w P x s1) = fst (compile w P x s2) /\
+    (p_defer_shared P = false -> fst (compile w P x s1) = fst (compile w P x s2)) /\
     sound w (s_cache (snd (compile w P x s1))) /\ sound w (s_cache (snd (compile w P x s2))).
 Proof.
   intros w P x s1 s2 Hk H1 H2. unfold compile, phase1.
@@ -170,7 +170,7 @@ Proof.
   destruct (env_resolve w (x_task_dir x) [] (env_static P x vs1) c1) as [ev1 c1'].
   destruct (env_resolve w (x_task_dir x) [] (env_static P x vs1) c2) as [ev2 c2'].
   cbn in A', B1', B2'. subst ev2. cbn [fst snd s_cache]. split; [|split; assumption].
-  unfold phase2. cbn [pd_vars pd_env pd_items s_rows]. f_equal.
+  intro Hd. unfold phase2. cbn [pd_vars pd_env pd_items pd_defers s_rows s_defers]. rewrite Hd. cbn [andb]. f_equal.
   destruct (x_matrix x); auto. destruct (p_matrix_shared P); auto.
   rewrite !rget_rset_same. reflexivity.
 Qed.
@@ -193,12 +193,12 @@ Qed.
    process is what it compiles to in a fresh process. *)
 Theorem noninterference :
   forall w P x s,
-    key_respects w -> reachable w P s ->
+    key_respects w -> p_defer_shared P = false -> reachable w P s ->
     fst (compile w P x s) = fst (compile w P x empty_shared).
 Proof.
-  intros w P x s Hk Hr.
+  intros w P x s Hk Hd Hr.
   destruct (compile_sound w P x s empty_shared Hk (reachable_sound w P s Hk Hr) (sound_nil w)) as [A _].
-  exact A.
+  exact (A Hd).
 Qed.
 
 (* a key of text, directory and environment records everything the shell sees *)
@@ -231,12 +231,12 @@ Qed.
 Definition plain_params (shared_rows : bool) : params :=
   {| p_layers := expected_layers; p_taskdir := expected_taskdir_layers; p_dir_after := "Special";
      p_envorder := ["GlobalEnv"; "TaskDotenv"; "TaskEnv"]; p_tdot_first := true;
-     p_matrix_shared := shared_rows |}.
+     p_matrix_shared := shared_rows; p_defer_shared := false |}.
 
 Definition plain_task (nm dir : string) (special : vars) (tvars : list entry) (probes : list name) : tctx :=
   {| x_name := nm; x_special := special; x_genv := []; x_gvars := []; x_incvars := []; x_incfile := [];
      x_call := []; x_tvars := tvars; x_root_dir := "ROOT"; x_task_dir := dir; x_dir_tmpl := None; x_tdot := []; x_tenv := [];
-     x_matrix := None; x_vprobes := probes; x_eprobes := [] |}.
+     x_matrix := None; x_vprobes := probes; x_eprobes := []; x_defers := [] |}.
 
 Definition sh_pwd (text dir : string) (env : vars) : string := dir.
 Definition sh_task (text dir : string) (env : vars) : string := vgetd "TASK" env.
@@ -274,18 +274,20 @@ Qed.
 (* C11: a compilation that resolves matrix refs into its own copy returns the
    shared rows as it found them *)
 Theorem no_shared_mutation :
-  forall w P x s, p_matrix_shared P = false -> s_rows (snd (compile w P x s)) = s_rows s.
+  forall w P x s,
+    p_matrix_shared P = false -> p_defer_shared P = false ->
+    s_rows (snd (compile w P x s)) = s_rows s /\ s_defers (snd (compile w P x s)) = s_defers s.
 Proof.
-  intros w P x s H. unfold compile, phase1.
+  intros w P x s H Hd. unfold compile, phase1.
   destruct (task_variables w _ _ _ x (s_cache s)) as [vs c1]. destruct (task_env w P x vs c1) as [ev c2].
-  cbn. rewrite H. destruct (x_matrix x); reflexivity.
+  cbn. rewrite H, Hd. split; [destruct (x_matrix x)|]; reflexivity.
 Qed.
 
 Definition matrix_task (items : string) : tctx :=
   {| x_name := "m"; x_special := []; x_genv := []; x_gvars := []; x_incvars := []; x_incfile := [];
      x_call := [{| e_name := "L"; e_expr := Lit items; e_dir := "" |}]; x_tvars := [];
      x_root_dir := "ROOT"; x_task_dir := "ROOT"; x_dir_tmpl := None; x_tdot := []; x_tenv := [];
-     x_matrix := Some "L"; x_vprobes := []; x_eprobes := [] |}.
+     x_matrix := Some "L"; x_vprobes := []; x_eprobes := []; x_defers := [] |}.
 
 (* 7.17: resolveMatrixRefs as it is writes the resolved list into the shared row *)
 Theorem shared_row_write_refuted :
@@ -297,10 +299,11 @@ Proof. intros sh ks. vm_compute. discriminate. Qed.
 (* ... which no later compilation can observe as long as compilations do not overlap:
    every compilation overwrites the row before it reads it *)
 Theorem shared_row_sequentially_harmless :
-  forall w P x c r1 r2,
-    fst (compile w P x {| s_cache := c; s_rows := r1 |}) = fst (compile w P x {| s_cache := c; s_rows := r2 |}).
+  forall w P x c r1 r2 d,
+    fst (compile w P x {| s_cache := c; s_rows := r1; s_defers := d |})
+    = fst (compile w P x {| s_cache := c; s_rows := r2; s_defers := d |}).
 Proof.
-  intros w P x c r1 r2. unfold compile, phase1. cbn [s_cache s_rows].
+  intros w P x c r1 r2 d. unfold compile, phase1. cbn [s_cache s_rows s_defers].
   destruct (task_variables w _ _ _ x c) as [vs c1]. destruct (task_env w P x vs c1) as [ev c2].
   unfold phase2. cbn. f_equal. destruct (x_matrix x); auto. destruct (p_matrix_shared P); auto.
   rewrite !rget_rset_same. reflexivity.
@@ -322,8 +325,9 @@ Proof. intros sh ks. vm_compute. split; reflexivity. Qed.
 
 (* with a private copy the two phases can be interleaved in any way *)
 Theorem private_rows_any_interleaving :
-  forall P x pd s s', p_matrix_shared P = false -> phase2 P x pd s = phase2 P x pd s'.
-Proof. intros P x pd s s' H. unfold phase2. rewrite H. reflexivity. Qed.
+  forall P x pd s s',
+    p_matrix_shared P = false -> p_defer_shared P = false -> phase2 P x pd s = phase2 P x pd s'.
+Proof. intros P x pd s s' H Hd. unfold phase2. rewrite H, Hd. reflexivity. Qed.
 
 (* ---------- the directory of the task-level sh: variables ---------- *)
 
@@ -333,11 +337,11 @@ Definition dir_from_global : tctx :=
      x_incvars := []; x_incfile := []; x_call := [];
      x_tvars := [{| e_name := "P"; e_expr := Sh "pwd"; e_dir := "" |}];
      x_root_dir := "ROOT"; x_task_dir := "ROOT/d1"; x_dir_tmpl := Some [TVar "GD"];
-     x_tdot := []; x_tenv := []; x_matrix := None; x_vprobes := ["P"]; x_eprobes := [] |}.
+     x_tdot := []; x_tenv := []; x_matrix := None; x_vprobes := ["P"]; x_eprobes := []; x_defers := [] |}.
 
 Definition params_dir_after (after : string) : params :=
   {| p_layers := expected_layers; p_taskdir := expected_taskdir_layers; p_dir_after := after;
-     p_envorder := ["GlobalEnv"; "TaskDotenv"; "TaskEnv"]; p_tdot_first := true; p_matrix_shared := false |}.
+     p_envorder := ["GlobalEnv"; "TaskDotenv"; "TaskEnv"]; p_tdot_first := true; p_matrix_shared := false; p_defer_shared := false |}.
 
 (* getVariables templates the task's dir: before the global vars are evaluated:
    with dir: '{{.GD}}' a task-level `sh: pwd` answers the ROOT directory although the
@@ -348,3 +352,29 @@ Theorem early_task_dir_refuted :
     o_vars (fst (compile w (params_dir_after "Special") dir_from_global empty_shared)) = ["ROOT"] /\
     o_vars (fst (compile w (params_dir_after "IncludeVars") dir_from_global empty_shared)) = ["ROOT/d1"].
 Proof. intros [s d e]. destruct s, d, e; vm_compute; split; reflexivity. Qed.
+
+(* ---------- defer: entries ---------- *)
+
+Definition defer_task (who : string) : tctx :=
+  {| x_name := "dtask"; x_special := []; x_genv := []; x_gvars := []; x_incvars := []; x_incfile := [];
+     x_call := [{| e_name := "NAME"; e_expr := Lit who; e_dir := "" |}]; x_tvars := [];
+     x_root_dir := "ROOT"; x_task_dir := "ROOT"; x_dir_tmpl := None; x_tdot := []; x_tenv := [];
+     x_matrix := None; x_vprobes := []; x_eprobes := [];
+     x_defers := [[TLit "cleanup "; TVar "NAME"]] |}.
+
+Definition params_defer (b : bool) : params :=
+  {| p_layers := expected_layers; p_taskdir := expected_taskdir_layers; p_dir_after := "IncludeVars";
+     p_envorder := ["GlobalEnv"; "TaskDotenv"; "TaskEnv"]; p_tdot_first := true;
+     p_matrix_shared := false; p_defer_shared := b |}.
+
+(* if the compiled task holds the definition's own defer: entry, the first call's
+   rendering replaces the template: the second call of the task, with other
+   vars, runs the first call's deferred command, and the definition has changed *)
+Theorem shared_defer_refuted :
+  forall sh ks,
+    let w := mkw sh ks [] false in
+    let s1 := snd (compile w (params_defer true) (defer_task "one") empty_shared) in
+    o_defers (fst (compile w (params_defer true) (defer_task "two") s1)) = ["cleanup one"] /\
+    o_defers (fst (compile w (params_defer true) (defer_task "two") empty_shared)) = ["cleanup two"] /\
+    s_defers s1 <> s_defers empty_shared.
+Proof. intros sh ks. vm_compute. repeat split; try reflexivity. discriminate. Qed.
